@@ -12,13 +12,13 @@ CHECKS = {
          "All 8192 AC13 codes in DF0/4/16/20 and all 4096 AC12 codes in each of the 13 type codes under DF17 and DF18 are decoded with random surroundings and compared with a reference written from Annex 10; the code space is covered completely, the surroundings are sampled.",
          "Trusts refdec::ac13_ft/ac12_ft/gillham_ft; an altitude of exactly 0 ft may be shown as none or 0.", "3 C06"),
  "C07": ("exploration", "exhaustive 2^22 / 2^11 / 2^8 field sweeps vs. reference decoder and atan2/hypot velocity model",
-         "Every direction/component word of both ground-speed subtypes, every vertical-rate word in every subtype, every GNSS-difference word and every NACv/flag word is decoded and compared field by field; calculate() is compared with an independent model.",
+         "Every direction/component word of both ground-speed subtypes, every vertical-rate word in every subtype, every GNSS-difference word and every NACv/flag word is decoded and compared field by field; calculate() is compared with an independent model, also in the alloc-only build; one long-lived tracker record receives a walk of 60 000 (1.5 million) reports that differ from their predecessor in one field group and must show the latest derived velocity.",
          "Trusts refdec::velocity_calc; naming polarity of the vertical-rate source bit follows the repository's pinned tests and is not asserted.", "3 C07"),
  "C08": ("exploration", "position x code enumeration + random strings vs. Annex 10 character table (differential)",
-         "Every 6-bit code at every one of the 8 positions, every ordered pair of positions with 16 representative codes, every pair of codes at adjacent positions, every space/non-space pattern, and random strings, in all four carriers; the report shows the decoded call sign and category; one long-lived tracker record shows the latest identification and stays tracked through it.",
+         "Every 6-bit code at every one of the 8 positions, every ordered pair of positions with 16 representative codes, every pair of codes at adjacent positions, every space/non-space pattern, and random strings, in all four carriers; the report shows the decoded call sign and category; one long-lived tracker record shows the latest identification and stays tracked through it, also when position reports (accepted or refused by the range check) follow.",
          "Interior spaces may be kept or dropped (statement only says padding is removed).", "3 C08"),
  "C09": ("exploration", "exhaustive enumeration of all 8192 identity codes x carriers vs. reference de-interleaver",
-         "All identity codes in DF5, DF21 and type 28 under DF17/DF18 with random surroundings; the complete subtype x emergency x code product of type 28; the report shows the four digits; one frame in eight also through from_reader (mid-stream, fragmented, and behind a copy of itself).",
+         "All identity codes in DF5, DF21 and type 28 under DF17/DF18 with random surroundings; the complete subtype x emergency x code product of type 28; the report shows the four digits and the frame survives a serde JSON round trip for every code in every carrier; one frame in eight also through from_reader (mid-stream, fragmented, and behind a copy of itself).",
          "Trusts refdec::squawk_of.", "3 C09"),
  "C10": ("exploration", "walking-field / walking-one enumeration + generated frames vs. reference bit-field decoder (differential)",
          "Each field of each interpreted ME/MB layout takes every value (or edge + random values when wider than 12 bits) with all other bits random, under DF17, DF18 x CF 0..7, DF20, DF21; single-one payloads locate each bit's owner; the BDS dispatch byte is swept; every value of the 17-bit CPR fields and every joint value of two fields up to 10 (14) combined bits; one frame in eight also through from_reader.",
@@ -33,7 +33,7 @@ CHECKS.update({
          "All 32 DF codes at all lengths 0..=32, the complete subtype x version x reserved-group grid of type 31, structured frames truncated / exact / over-long; accepted iff the statement says so, right variant, checksum over exactly the frame, tail bytes without influence.",
          "ME 13-14 != 0 in a surface operational status is left open (DO-260B reserves, library ignores).", "3 C02"),
  "C03": ("exploration", "differential vs bitwise polynomial division; constructed-parity frames; exhaustive error-pattern enumeration on base frames",
-         "crc == remainder mod 0x1FFF409 on random, single-byte and double-byte frames; the three meanings on constructed frames (all 128 II codes); all error patterns of weight <= 3 (<= 5 thorough) and all bursts <= 24 bits with bounded interior weight (all 2^22 interiors thorough) on 10 valid base frames never give checksum 0; the checksum of a sample also in the alloc-only build (child process) and through a serialize/deserialize round trip; no checksum for a buffer shorter than the frame.",
+         "crc == remainder mod 0x1FFF409 on random, single-byte and double-byte frames; the three meanings on constructed frames (all 128 II codes); all error patterns of weight <= 3 (<= 5 thorough) and all bursts <= 24 bits with bounded interior weight (all 2^22 interiors thorough) on 10 valid base frames never give checksum 0; the checksum of a sample also in the alloc-only build (child process), through a serialize/deserialize round trip, and through a reader with one transient Interrupted before each of its first 18 read calls; no checksum for a buffer shorter than the frame; a format of which no constructed frame is reported at all is a violation.",
          "Error detection is enumerated over patterns, not over all base frames; patterns that turn the frame into a 56-bit or rejected frame are excluded.", "3 C03"),
  "C05": ("exploration", "round trip through a reference CPR encoder (inverse), exact integer reference decoder (differential), exhaustive zone-latitude probes",
          "True positions over the whole sphere (poles, equator, antimeridian, every NL transition) with displacements <= 3 NM in both orders decode to within the quantisation error and re-encode to the second report; raw pairs are rejected when inconsistent; every reachable zone latitude of both parities is probed for its longitude-zone count.",
@@ -42,7 +42,7 @@ CHECKS.update({
          "Every format/type/subtype with the renderer's branch conditions targeted; Display must equal the reference templates instantiated with the decoded frame's own fields; non-empty except DF19; every value of every printed numeric field is swept (all 1024 x 1024 velocity component pairs, rates, altitude and identity codes, target-state words); a sample is rendered by the alloc-only build (child process) and compared with the same template.",
          "The templates are those pinned by the README/test suite as re-implemented in render.rs; field correctness is C04-C10.", "3 C11"),
  "C12": ("exploration", "proptest histories (vec of ops + interpreter) vs reference tracker model; isolation metamorphic relation",
-         "Histories of DF17/DF18 squitters of every payload kind from 1-4 interleaved aircraft, non-squitter formats with the same addresses, waits and expiry; added flag, key set, message counts compared after every op; record(H) == record(H restricted to the aircraft); crowds of 700-2100 (70 000) distinct addresses incl. blocks of consecutive ones; one aircraft heard 90 000 (1.3 million) times; generated histories interpreted by the alloc-only build (child process).",
+         "Histories of DF17/DF18 squitters of every payload kind (one in 16 with a flipped parity bit: decoded, checksum not zero) from 1-6 interleaved aircraft, non-squitter formats with the same addresses, waits and expiry; added flag, key set, message counts compared after every op; record(H) == record(H restricted to the aircraft); crowds of 700-2100 (70 000) distinct addresses incl. blocks of consecutive ones; one aircraft heard 90 000 (1.3 million) times; generated histories interpreted by the alloc-only build (child process).",
          "Frames are real bytes decoded by the library; histories up to 40 ops.", "4 C12"),
  "C13": ("exploration", "proptest histories vs reference model with reference great-circle distance and CPR encoder",
          "Consistent flights, jumps around 100 km, positions at 0.99/1.01 x range, garbage CPR, repeated reports, eight receiver sites (poles, antimeridian, equator, two with the same latitude), the receiver moving within a history; publish/clear decision, stored reports (incl. altitude) and distance compared after every position report; deterministic flights across each of the 58 zone transitions in both hemispheres; crowds of 900 / 2500 (40 000) positioned aircraft.",
@@ -54,22 +54,22 @@ CHECKS.update({
          "Advance/Prune ops with ages in 0.5 s steps on both sides of T (incl. T = 0 and T near u64::MAX); surviving key set, untouched survivors (also with a track of thousands of entries), re-added aircraft start empty, no re-add without expiry; crowds of 300-3000 (70 000) aircraft of which every second one expires in one call.",
          "Uses the verif_hooks feature (Airplanes::verif_backdate); real elapsed time per case must stay below 0.3 s or the case is inconclusive.", "4 C15"),
  "C19": ("fault_enumeration", "exhaustive injection of transient read errors and short reads over the recorded call trace + proptest schedules; slice decode differential",
-         "For frames of every accepted class and fragment sizes 64/1/2: 1-3 consecutive Interrupted before every read call and all pairs of injection points; runs of 70 and 300 Interrupted; random schedules; from_reader == from_bytes, repeatability, captures of several frames through one reader, and the same result when a frame is decoded first in a fresh process or after other frames in another fresh process.",
+         "For frames of every accepted class and fragment sizes 64/1/2: 1-3 consecutive Interrupted before every read call and all pairs of injection points; runs of 70 and 300 Interrupted; random schedules; from_reader == from_bytes, repeatability, captures of several frames through one reader, the same result when a frame is decoded first in a fresh process or after other frames in another fresh process, and the same result from the alloc-only build (child process) reading fragments of 1-64 bytes with Interrupted at each of its first 14 read calls.",
          "The scripted reader consumes nothing on Interrupted (std semantics); hard I/O errors are out of scope.", "3 C19"),
  "C20": ("exploration", "differential std process vs alloc-only child process on generated frames and histories; serde JSON round trip",
-         "Byte-identical transcripts (decode, render, velocity, pairing, full tracker dump after every step) between the std build and the libraries built with default-features=false, features=[alloc]; serde round trip of frames and tracker states incl. continued behaviour; constructed exact ties of the CPR zone-index rounding; addresses 000000 / ffffff and two addresses differing in the last octet in the histories.",
+         "Byte-identical transcripts (decode, render, velocity, pairing, full tracker dump after every step) between the std build and the libraries built with default-features=false, features=[alloc]; serde round trip of frames and tracker states incl. continued behaviour; constructed exact ties of the CPR zone-index rounding; every frame also through the alloc-only build's reader path with fragments of 1-14 bytes and transient Interrupted errors; addresses 000000 / ffffff and two addresses differing in the last octet in the histories.",
          "std-only time stamps are stripped from the transcript; serde_json with float_roundtrip is the only format exercised.", "3 C20"),
 })
 
 CHECKS.update({
  "C16": ("exploration", "Hypothesis-generated feeds x segmentations x delays x connection drops (FIN and RST) against the real binaries (pty/TCP/log black box); expected line sequence oracle",
-         "Well-formed lines interleaved with 32 kinds of malformed line (every kind under every option set of both clients on every run), cut anywhere (also inside non-ASCII runs) with pauses on both sides of the 50 ms read timeout, dropped at arbitrary byte offsets with and without --retry-tcp; the well-formed lines must be processed exactly once in order by both clients, the clients must survive, exit cleanly on disconnect or reconnect (also after the server was unreachable, attempts timing out, for 12 s) and keep their aircraft.",
+         "Well-formed lines interleaved with 32 kinds of malformed line (every kind under every option set of both clients on every run), cut anywhere (also inside non-ASCII runs) with pauses on both sides of the 50 ms read timeout, dropped at arbitrary byte offsets with and without --retry-tcp; the well-formed lines must be processed exactly once in order by both clients, the clients must survive, exit cleanly on disconnect or reconnect (also after the server was unreachable for 12 s, attempts timing out, or gone for 1, 4 and 9 s, attempts refused) and keep their aircraft.",
          "Timing is requested, not controlled: the verdict never depends on measured time. Failures that depend on kernel scheduling may not reproduce on every replay (replay retries 5 times).", "5 C16"),
  "C17": ("exploration", "Hypothesis-generated operator sessions (keys, key bursts, SGR mouse, resizes, traffic, expiry, option sets) on a real pty; liveness / exit status / termios / escape-sequence oracle; CLI invalid-value grammar",
-         "After every step the radar process must be alive without a panic; quit (q / Ctrl-C, also while waiting for the connection) must exit 0 with termios restored, mouse reporting off and the cursor visible; invalid option values must be clap usage errors. Swept on every run: the invalid-value grammar, every pair of selection/view keys as one burst on every tab, every listed --scale and receiver position (NaN, inf, poles), expiry on every tab, 400 aircraft, a silent / talking gpsd daemon while quitting, 150-key bursts on the waiting screen.",
+         "After every step the radar process must be alive without a panic; quit (q / Ctrl-C, also while waiting for the connection) must exit 0 with termios restored, mouse reporting off and the cursor visible; invalid option values (incl. arguments that are not UTF-8) must be clap usage errors. Swept on every run: the invalid-value grammar, every listed kind of line that is not a frame on every tab, every pair of selection/view keys as one burst on every tab, every listed --scale and receiver position (NaN, inf, poles), expiry on every tab, 400 aircraft, a silent / talking gpsd daemon while quitting, 150-key bursts on the waiting screen.",
          "Each step waits 120 ms for the event loop; the terminal is a pty driven by a minimal VT emulator, not a real terminal emulator.", "5 C17"),
  "C18": ("exploration", "Hypothesis-generated scenarios; screen (VT-emulated) vs tracker state computed by the real library (differential); map metamorphic relations (direction, proportionality, zoom, pan, reset)",
-         "Airplanes tab rows and titles equal the tracker's records, Stats totals equal added events / peak count, markers lie on the correct side of the centre at proportional offsets (self-calibrated), view controls leave the tables unchanged and reset restores the map cell for cell; aircraft heard via DF18; receiver position delivered by a gpsd server; expiry scenarios judged on radar's own logged processing times incl. a silent phase after which the screen must be empty without any key; thorough: a 10 050-frame aircraft.",
+         "Airplanes tab rows and titles equal the tracker's records, Stats totals equal added events / peak count, markers lie on the correct side of the centre at proportional offsets (self-calibrated), view controls leave the tables unchanged and reset restores the map cell for cell; aircraft heard via DF18 or first heard with a status / target-state squitter; receiver position delivered by a gpsd server that also sends GST / SKY / no-fix reports; 'newly added' judged by the tracked set; expiry scenarios judged on radar's own logged processing times incl. a silent phase after which the screen must be empty without any key; thorough: a 10 050-frame aircraft.",
          "Expected table content is produced by rsadsb_common (helper) from the same frames; marker cells are recognised by colour with --disable-heading/--disable-track and attributed by place on a settled snapshot; screen/tracker differences count only if they persist for 5 s.", "5 C18"),
 })
 NOT_YET = {}
@@ -89,7 +89,7 @@ def main():
             "engine": "vcheck" if pid not in ("C16", "C17", "C18") else "pyharness",
             "level_claimed": {"category": cat, "text": text, "design_ref": f"DESIGN.md section {ref}"},
             "level_note": note,
-            "technique": tech,
+            "technique": tech + ("; the saved cases and enumerated sub-domains repeated against the dev-profile binaries (debug assertions on)" if pid in ("C16", "C17", "C18") else "; second pass of the same check against a build with debug assertions on"),
         })
     na = [{"property_id": p, "reason": NOT_YET.get(p, "check not built yet in this revision of /verif (work in progress; see DESIGN.md)")} for p in ALL if p not in CHECKS]
     hooks_commits = [l.strip() for l in open(os.path.join(V, "hooks_commits.txt"))] if os.path.exists(os.path.join(V, "hooks_commits.txt")) else []
@@ -106,10 +106,10 @@ def main():
         "engines": [
             {"name": "vcheck", "path": "harness/vcheck", "serves_properties": [p for p in ALL if p in CHECKS and p not in ("C16","C17","C18")],
              "kind_free_text": "Rust binary: proptest 1.11 (TestRunner, fixed ChaCha seeds, shrinking), exhaustive enumerators, reference models; links the libraries from /repo's working tree by path"},
-            {"name": "vworker", "path": "harness/vworker", "serves_properties": ["C20"],
-             "kind_free_text": "differential partner process: same transcript code linked against the libraries built alloc-only (no std)"},
+            {"name": "vworker", "path": "harness/vworker", "serves_properties": ["C03", "C07", "C11", "C12", "C14", "C19", "C20"],
+             "kind_free_text": "differential partner process: same transcript code linked against the libraries built alloc-only (no std); scripted reader (fragments, transient Interrupted) over the alloc-only I/O layer"},
             {"name": "pyharness", "path": "pyharness", "serves_properties": ["C16", "C17", "C18"],
-             "kind_free_text": "Python 3.11 + Hypothesis 6.168 (python3-vt): drives the release binaries radar and 1090 built from /repo over a pty and TCP, VT emulator, feed server; expected values from `vcheck helper` (the real libraries)"},
+             "kind_free_text": "Python 3.11 + Hypothesis 6.168 (python3-vt): drives the binaries radar and 1090 built from /repo (release profile; second pass: dev profile) over a pty and TCP, VT emulator, feed server; expected values from `vcheck helper` (the real libraries)"},
         ],
         "checks": checks,
         "not_applicable": na,
